@@ -79,8 +79,9 @@ static void run() {
                                "(exact-size caller buffer with canary words in front) and as iteration range x callback scripts (never stop; positive / negative result at the k-th call for every k)", ntables);
     vp::Rng rng(a.seed * 9973 + a.shard);
     FamilyOpts fo; fo.max_size = 8;
+    FamilyOpts big; big.max_areas = 6; big.max_size = 20; big.max_regs = 12;   // thorough tier: every 8th table is a larger one
     for (size_t ti = 0; ti < ntables && !vp::too_many_failures(); ti++) {
-        Case c; c.t = gen_table(rng, fo);
+        Case c; c.t = gen_table(rng, (a.thorough() && ti % 8 == 7) ? big : fo);
         rm::Space m; m.init(c.t);
         for (auto &ar : m.mem) for (auto &w : ar) w = (uint16_t)(rng.next() | 1);   // never zero: a zeroed write-only area must be distinguishable
         c.content = m.mem;
